@@ -109,7 +109,10 @@ def substitute(ll_text, replace):
     mapping = {}
     for key, stub in replace.items():
         plain = ('(' not in key and ':' not in key)   # plain C symbol: exact match only
-        hits = [n for n in names if n == key or (not plain and dm.get(n, '').startswith(key))]
+        if key.endswith('$'):   # exact demangled name
+            hits = [n for n in names if dm.get(n, '') == key[:-1]]
+        else:
+            hits = [n for n in names if n == key or (not plain and dm.get(n, '').startswith(key))]
         hits = [n for n in hits if n != stub]
         if not hits:
             raise BuildError('replace: no function matches %r' % key)
